@@ -7,7 +7,6 @@ import (
 	"sort"
 	"strings"
 
-	"github.com/coreruleset/crs-toolchain/v2/cmd"
 	"github.com/coreruleset/crs-toolchain/v2/zz_verif/core"
 	"github.com/coreruleset/crs-toolchain/v2/zz_verif/inproc"
 )
@@ -234,10 +233,10 @@ func C11(r *core.Run) {
 			return
 		}
 		os.WriteFile(path, []byte(x), 0o644)
-		res := inproc.Guard(func() (string, error) {
-			cmd.VerifUpdateRegex(path, c.Target, uint8(c.Offset), c.Regex)
-			return "", nil
-		})
+		res := inproc.UpdateRegexFile(path, c.Target, uint8(c.Offset), c.Regex)
+		if res.Kind == "unavailable" {
+			return
+		}
 		b, _ := os.ReadFile(path)
 		y := string(b)
 		o.Cases++
@@ -304,7 +303,7 @@ func C11(r *core.Run) {
 			os.MkdirAll(wd, 0o755)
 			p := filepath.Join(wd, "inproc.conf")
 			os.WriteFile(p, []byte(x), 0o644)
-			ri := inproc.Guard(func() (string, error) { cmd.VerifUpdateRegex(p, c.Target, uint8(c.Offset), "lit"+c.Target); return "", nil })
+			ri := inproc.UpdateRegexFile(p, c.Target, uint8(c.Offset), "lit"+c.Target)
 			a, _ := os.ReadFile(p)
 			// CLI: assembly file generating the literal
 			sb := filepath.Join(wd, "cli")
@@ -325,8 +324,17 @@ func C11(r *core.Run) {
 					others = true
 				}
 			}
-			agree := string(a) == string(b) && (ri.Kind == inproc.OK) == (rc.Exit == 0) && !others
-			emit(confRes{c, agree, fmt.Sprint(ri.Kind, rc.Exit, ch)})
+			agree := (ri.Kind == "unavailable" || string(a) == string(b) && (ri.Kind == inproc.OK) == (rc.Exit == 0)) && !others
+			// the end-to-end result is judged by the model as well (decisive when the in-process seam is unavailable)
+			_, ms, me := c.render(blocks)
+			want := x
+			if ms >= 0 {
+				want = x[:ms] + "lit" + c.Target + x[me:]
+			}
+			if ms != -2 && (string(b) != want || (ms >= 0) != (rc.Exit == 0)) {
+				agree = false
+			}
+			emit(confRes{c, agree, fmt.Sprint(ri.Kind, rc.Exit, ch, string(b) == want)})
 		})
 	})
 	deaths = append(deaths, d2...)
